@@ -7,6 +7,7 @@ import (
 	"bytes"
 	"encoding/json"
 	"fmt"
+	"net"
 	"os"
 	"path/filepath"
 	"strings"
@@ -39,6 +40,10 @@ type c11Case struct {
 	Weird []wire.Hex `json:"weird,omitempty"`
 	// OtherFS: the cache file lives on a file system other than the temporary directory's
 	OtherFS bool `json:"other_fs,omitempty"`
+	// Bulk > 0: besides the history's templates the cache holds a large population (a busy collector after weeks):
+	// 1 = about 1.5 MiB of cache file, 2 = about 5 MiB, 3 = about 20 MiB; the round trip is checked on the history's
+	// keys and a sample of the bulk keys, the crash-point and corruption parts are left to the small caches
+	Bulk int `json:"bulk,omitempty"`
 }
 
 const c11Rule = "case = a template cache built by a generated announce/re-announce/data history (IPFIX or NetFlow v9, several exporters, plain/options/enterprise templates, optionally adversarial templates with no or zero-length fields from one more exporter) dumped to a file F (in a quarter of the cases on a file system other than the temporary directory's; to a fresh path, or over an existing longer file: the same cache re-indented, a document with trailing octets, a long unrelated document), " +
@@ -333,6 +338,69 @@ func applyMut(file []byte, m c11Mut) []byte {
 	return b
 }
 
+// ---------------------------------------------------------------- bulk population
+
+type c11BulkProbe struct {
+	addr []byte
+	id   uint16
+	data []byte
+	want []wire.ExpRecord
+}
+
+// c11Populate announces a large, deterministic population of templates to the cache (exporters 100.64.x.y, ids
+// 1000.., 64..100 four-octet fields each) and returns data probes for a sample of them with their expected records.
+func c11Populate(cache *flowCache, proto string, class int) ([]c11BulkProbe, error) {
+	nexp, ntpl, nfld := map[int][3]int{1: {12, 30, 64}, 2: {40, 30, 64}, 3: {120, 40, 100}}[class][0], map[int][3]int{1: {12, 30, 64}, 2: {40, 30, 64}, 3: {120, 40, 100}}[class][1], map[int][3]int{1: {12, 30, 64}, 2: {40, 30, 64}, 3: {120, 40, 100}}[class][2]
+	if nexp == 0 {
+		return nil, fmt.Errorf("bad case: bulk class")
+	}
+	elems := []uint16{10, 14, 16, 17, 21, 22} // unsigned32 elements at their natural size
+	var probes []c11BulkProbe
+	for e := 0; e < nexp; e++ {
+		addr := []byte{100, 64, byte(e >> 8), byte(e)}
+		for base := 0; base < ntpl; base += 10 {
+			var tpls []wire.Template
+			for k := base; k < base+10 && k < ntpl; k++ {
+				tp := wire.Template{ID: uint16(1000 + k)}
+				for f := 0; f < nfld; f++ {
+					tp.Fields = append(tp.Fields, wire.Field{ID: elems[(f+k)%len(elems)], Len: 4, Type: wire.TUint32})
+				}
+				tpls = append(tpls, tp)
+			}
+			m := wire.Msg{Proto: proto, Seq: uint32(e*1000 + base), Time: 1, Domain: 1, Count: 1, Sets: []wire.Set{{Kind: "tpl", Tpls: tpls}}}
+			res, perr := cache.decodeFlow(wire.ExactIP(addr), m.Bytes())
+			if perr != nil {
+				return nil, perr
+			}
+			if res.Nil || res.Err != nil {
+				return nil, fmt.Errorf("harness: bulk announcement rejected: %v", res.Err)
+			}
+			if (e*7+base)%97 == 0 && len(probes) < 60 {
+				tp := tpls[len(tpls)-1]
+				rec := wire.Record{}
+				for f := 0; f < nfld; f++ {
+					rec.Vals = append(rec.Vals, wire.Hex{byte(e), byte(base), byte(f), 1})
+				}
+				dm := wire.Msg{Proto: proto, Seq: 9, Time: 2, Domain: 1, Count: 1, Sets: []wire.Set{{Kind: "data", Tpl: &tp, Recs: []wire.Record{rec}}}}
+				// expected = what the cache decodes before it is saved ("exactly as before")
+				before, perr := cache.decodeFlow(wire.ExactIP(addr), dm.Bytes())
+				if perr != nil {
+					return nil, perr
+				}
+				if before.Err != nil || len(before.Recs) != 1 {
+					return nil, fmt.Errorf("harness: bulk probe does not decode before the save: %v", before.Err)
+				}
+				want := make([]wire.ExpRecord, len(before.Recs))
+				for i := range before.Recs {
+					want[i] = wire.ExpRecord(before.Recs[i])
+				}
+				probes = append(probes, c11BulkProbe{addr: addr, id: tp.ID, data: dm.Bytes(), want: want})
+			}
+		}
+	}
+	return probes, nil
+}
+
 // ---------------------------------------------------------------- execution
 
 func c11WorkDir() string {
@@ -373,6 +441,14 @@ func runC11(c *c11Case) (v verdict, sig string, err error) {
 		}
 	}
 	file := filepath.Join(dir, "cache.json")
+	var bulkProbes []c11BulkProbe
+	if c.Bulk > 0 {
+		var perr error
+		if bulkProbes, perr = c11Populate(cache, proto, c.Bulk); perr != nil {
+			return v, "panic", perr
+		}
+		v.label(true, fmt.Sprintf("bulk-cache-class-%d", c.Bulk))
+	}
 	var derr error
 	func() {
 		defer func() {
@@ -433,6 +509,19 @@ func runC11(c *c11Case) (v verdict, sig string, err error) {
 	}
 	if e := checkNothingInvented(loaded, probes, true); e != nil {
 		return v, "roundtrip", fmt.Errorf("round trip: %v", e)
+	}
+	for _, bp := range bulkProbes {
+		r2, p2 := loaded.decodeFlow(wire.ExactIP(bp.addr), bp.data)
+		if p2 != nil {
+			return v, "panic", p2
+		}
+		if r2.Err != nil || wire.CompareRecords(r2.Recs, bp.want) != "" {
+			return v, "roundtrip", fmt.Errorf("round trip of a large cache (%d octets of file): template %d of bulk exporter %v decodes differently after load: err=%v %s", len(saved), bp.id, net.IP(bp.addr), r2.Err, wire.CompareRecords(r2.Recs, bp.want))
+		}
+	}
+	if c.Bulk > 0 {
+		v.NT = true
+		return v, "", nil
 	}
 	for i := range c.Hist.Slots {
 		if model[i] != nil {
@@ -590,6 +679,7 @@ func TestC11(t *testing.T) {
 		c := c11Case{Hist: genC04(t, proto, envs[proto]), PrefixSeed: rapid.IntRange(0, 1<<20).Draw(t, "prefixseed")}
 		c.Prefill = rapid.SampledFrom([]string{"", "", "pretty", "tail", "big", "older"}).Draw(t, "prefill")
 		c.OtherFS = rapid.IntRange(0, 3).Draw(t, "otherfs") == 0
+		c.Bulk = rapid.SampledFrom(append(make([]int, 90), 1, 1, 1, 2, 2, 3, 3)).Draw(t, "bulk")
 		if rapid.Bool().Draw(t, "weird") {
 			nw := rapid.IntRange(1, 3).Draw(t, "nweird")
 			for i := 0; i < nw; i++ {
